@@ -345,6 +345,11 @@ theorem XGInv_step (x y : P2P × TLState) (h : XGInv x) (hs : XStep x y) : XGInv
     refine ⟨gh, st0, SessInvD_congr s1 _ gh t [] st0 h' ⟨rfl, rfl, rfl, rfl, rfl, rfl, rfl, rfl, rfl⟩, ?_⟩
     exact GlueInv_transferL s _ gh.g gh.g hg hout hh
       (fun p hp => hoth p (fun hin => hrem p hin hp)) (by show s1.sync.queues.length = _; rw [hsy]) (fun _ _ => rfl)
+  | adopt s s' t now handle addr ep lf hpt hep hrem hl0 hlow hdead hdrop =>
+    obtain ⟨h', hsy, hh, _, _, _, _, _, hoth, hout, _⟩ := drop_specG s s' gh t [] st0 now handle addr lf ep h hpt hep hrem hl0 hlow
+      (fun g hg' hgg => hdead g hg' (h.marks.mono g (h.tinv.sync.gone g hg' hgg).dead)) hdrop
+    exact ⟨gh, st0, h', GlueInv_transferL s s' gh.g gh.g hg hout hh
+      (fun p hp => hoth p (fun hin => hrem p hin hp)) (by rw [hsy]) (fun _ _ => rfl)⟩
 
 /-- **L-glue with drops.** -/
 theorem XGInv_run (x y : P2P × TLState) (h : XGInv x) (hr : XStar x y) : XGInv y := by
